@@ -19,7 +19,7 @@ CONFIGS = [
 ]
 
 SIGMA = [
-    ('label', 'G0'), ('label', 'G1'), ('label', '_f0'),
+    ('label', 'G0'), ('label', 'G1'), ('label', '_f0'), ('const', 'Z0', 0),
     ('nop',), ('ldi', 'a', ('lab', 'K0')),
     ('jmp', ('lab', 'G0')), ('jmp', ('lab+', 'G1', 1)), ('brr', ('lab', 'G0')), ('brr', ('lab', 'G1')),
     ('data', 1, [('lab', 'G1')]), ('data', 2, [('lab', 'G0'), ('lab+', '_f0', 2)]),
@@ -68,7 +68,7 @@ def build(hist):
             stmts += [('if', ('num', 0)), ('data', 1, [1, 2, 3]), ('label', 'G9'), ('endif',)]
             continue
         stmts.append(s)
-        if s[0] == 'label':
+        if s[0] in ('label', 'const'):
             defined.add(s[1])
         for part in s[1:]:
             for v in (part if isinstance(part, list) else [part]):
@@ -79,9 +79,11 @@ def build(hist):
     for name in ('G0', 'G1', '_f0'):
         if name not in defined:
             tail += [('label', name), ('nop',)]
+    if 'Z0' not in defined:
+        tail += [('const', 'Z0', 0)]        # a constant whose value is 0, defined where the address is (mostly) not 0
     stmts += tail
     stmts += [('unmute',), ('unmute',), ('unmute',), ('unmute',), ('unmute',),
-              ('data', 2, [('lab', 'G0'), ('lab', 'G1'), ('lab', '_f0')]), ('data', 1, [0xEE])]
+              ('data', 2, [('lab', 'G0'), ('lab', 'G1'), ('lab', '_f0'), ('lab', 'Z0')]), ('data', 1, [0xEE])]
     return stmts
 
 
